@@ -2,7 +2,8 @@
 From Dastard Require Import Common.ZX C06.Model C20.Model C20.Spec C20.Proofs.
 
 (* Over ALL configurations with at least one channel and ALL histories of
-   START | STOP | PAUSE | UNPAUSE[ label] | malformed requests | label requests | publishes |
+   START | STOP | PAUSE | UNPAUSE[ label] | malformed requests | label requests (stamped by the server or
+   carrying a caller-supplied time stamp) | publishes |
    blocks (external-trigger counts, dropped frames, first frame):
    - the model never crashes and its observations pass the checker of Spec.v;
    - at every accepted STOP the three files read back are exactly [expected] of the span tracked since the
@@ -44,9 +45,9 @@ Example side_files_exact_log_example :
   c_proj cfg20 <> [] /\
   nth 6 (snd (run20 (init20 cfg20) example_hist)) OX =
     OR true (Some {| x_ext := Some [5; 6; 7]; x_drop := Some [(30, 4)];
-                     x_state := Some [sSTART; [65]; sSTOP]; x_fmt := true |}) true /\
+                     x_state := Some [(0, sSTART); (0, [65]); (0, sSTOP)]; x_fmt := true |}) true /\
   nth 10 (snd (run20 (init20 cfg20) example_hist)) OX =
-    OR true (Some {| x_ext := Some [13]; x_drop := None; x_state := Some [sSTART; sSTOP]; x_fmt := true |}) true.
+    OR true (Some {| x_ext := Some [13]; x_drop := None; x_state := Some [(0, sSTART); (0, sSTOP)]; x_fmt := true |}) true.
 Proof. exact example20. Qed.
 
 (* The code as it was before the fix (a label containing a line break was accepted and wrote a line without
